@@ -174,7 +174,14 @@ func serializeAttrs(pc *PrintCtx, kvps Attrs) (err error) { //nolint:revive
 			continue
 		}
 
-		if pc.noColor {
+		// inside a text-format record a group prints nothing itself: its
+		// members follow under dotted keys, each with its own separator.
+		_, isGroup := v.(groupedValue)
+		isGroup = (isGroup || inGroupedMode) && !pc.jsonMode && pc.valueStringer == nil
+
+		if isGroup {
+			// no separator and no key for the group itself
+		} else if pc.noColor {
 			if pc.omitNextComma {
 				pc.omitNextComma = false // first member of a nested JSON object
 			} else {
@@ -185,12 +192,8 @@ func serializeAttrs(pc *PrintCtx, kvps Attrs) (err error) { //nolint:revive
 			ct.echoColorAndBg(pc, pc.clr, pc.bg)
 		}
 
-		if !inGroupedMode {
-			_, inGroupedMode = v.(groupedValue)
-		}
-
 		key := v.Key()
-		if inGroupedMode && !pc.jsonMode && pc.valueStringer == nil {
+		if isGroup {
 			key = strings.DotPrefix(key, prefix)
 		} else {
 			if inGroupedMode && !pc.jsonMode && pc.valueStringer == nil {
